@@ -38,6 +38,42 @@ def run(ctx):
     from . import c07
     from .common import MultiAlias
     c07.r1(MultiAlias(ctx, {"C07.R1": "C06.R7"}))
+    ctx.rule("C06.R8", "K3", "a worker that serves one request per wake-up and then waits for the socket to become readable looks first at the bytes its parser has already taken from the socket")
+    parked_with_buffered_input(ctx, "C06.R8")
+
+
+def parked_with_buffered_input(ctx, rid):
+    """The threaded worker parses one request per call of handle() and, for a keep-alive connection, registers the socket with
+    the poller for EVENT_READ; the next `next(conn.parser)` only happens when the *socket* becomes readable.  A pipelined
+    request that arrived in the same recv() as its predecessor lives in the parser's unreader buffer, not in the socket: the
+    socket never becomes readable, the request is dropped when the keep-alive time is over -- while the same bytes cut into two
+    reads are served.  Necessary condition decided here (structural): somewhere between the request handler returning
+    "keep alive" and the registration for readability, a branch decides on the parser's / unreader's state (an expression
+    rooted at the connection's parser).  Not decided: that what it asks is right."""
+    repo = ctx.repo
+    W = "gunicorn.workers.gthread.ThreadWorker"
+    fh = ctx.fn(repo.func(W + ".handle"))
+    ff = ctx.fn(repo.func(W + ".finish_request"))
+    regs = [c for c in method_calls(ff, "register")] + [c for c in method_calls(fh, "register")]
+    ctx.need(regs, rid + ": the threaded worker never registers a connection with its poller")
+    nxt = [c for c in ast.walk(fh.node) if isinstance(c, ast.Call) and isinstance(c.func, ast.Name) and c.func.id == "next" and c.args and "parser" in norm(c.args[0])]
+    ctx.need(nxt, rid + ": ThreadWorker.handle does not take requests from conn.parser")
+
+    def asks_parser(fn):
+        out = []
+        for t in fn.cfg.tests():
+            if t.ast is None:
+                continue
+            for n in ast.walk(t.ast):
+                if isinstance(n, ast.Attribute) and n.attr in ("parser", "unreader", "buf") and not (isinstance(t.ast, ast.Call) and t.ast in nxt):
+                    out.append(t)
+                    break
+        return out
+    asks = asks_parser(fh) + asks_parser(ff)
+    ctx.check(rid, bool(asks), key(fh, "parked-without-looking-at-the-buffer"), site(ff, regs[0]),
+              "after a keep-alive response ThreadWorker hands the connection to the poller and waits for the socket to become readable, without any branch on what its parser has already read: "
+              "a pipelined request received in the same recv() as its predecessor stays in the unreader buffer and is never served (the connection is closed when the keep-alive time is over), "
+              "whereas the same bytes cut into two reads are", "a test on the parser's buffered input before parking")
 
 
 # ---------------------------------------------------------------------------- helpers
